@@ -264,7 +264,7 @@ pub fn c04(tier: Tier) -> i32 {
         if n >= 2 {
             alphabet.push(Op::K(n - 1));
         }
-        Scenario { data: vec![], env: env.clone(), alphabet, positions: false, iterate_failed_sets: false, policy_clauses: false, explore_post: false }
+        Scenario { data: vec![], env: env.clone(), alphabet, positions: false, iterate_failed_sets: false, policy_clauses: false, explore_post: false, strict_after_buffer_limit: false }
     });
     run_hist(HistCfg {
         prop: "C04",
@@ -288,7 +288,7 @@ pub fn c05(tier: Tier) -> i32 {
         for i in 0..=n {
             alphabet.push(Op::K(i));
         }
-        Scenario { data: vec![], env: env.clone(), alphabet, positions: true, iterate_failed_sets: false, policy_clauses: false, explore_post: false }
+        Scenario { data: vec![], env: env.clone(), alphabet, positions: true, iterate_failed_sets: false, policy_clauses: false, explore_post: false, strict_after_buffer_limit: false }
     });
     let n = scenarios.len();
     let code = run_hist_with(HistCfg {
@@ -357,7 +357,7 @@ fn source_calls(data: &[u8], env: &Env) -> usize {
 pub fn c06(tier: Tier) -> i32 {
     let mut scenarios: Vec<Scenario> = vec![];
     let mk = |alphabet: Vec<Op>| {
-        move |_rs: &RefStream, env: &Env| Scenario { data: vec![], env: env.clone(), alphabet: alphabet.clone(), positions: false, iterate_failed_sets: true, policy_clauses: false, explore_post: true }
+        move |_rs: &RefStream, env: &Env| Scenario { data: vec![], env: env.clone(), alphabet: alphabet.clone(), positions: false, iterate_failed_sets: true, policy_clauses: false, explore_post: true, strict_after_buffer_limit: false }
     };
     // (a) refusing / slowly growing policies, histories continued past the error
     for &format in &[Format::Fasta, Format::Fastq] {
@@ -476,7 +476,7 @@ pub fn c14(tier: Tier) -> i32 {
                         for &kind in kinds {
                             let mut env = env0.clone();
                             env.fault = Some(Fault { at: k, kind });
-                            scenarios.push(Scenario { data: data.clone(), env, alphabet: alphabet.clone(), positions: false, iterate_failed_sets: false, policy_clauses: false, explore_post: false });
+                            scenarios.push(Scenario { data: data.clone(), env, alphabet: alphabet.clone(), positions: false, iterate_failed_sets: false, policy_clauses: false, explore_post: false, strict_after_buffer_limit: false });
                             n_fault += 1;
                         }
                     }
@@ -492,7 +492,7 @@ pub fn c14(tier: Tier) -> i32 {
                         for int in pats {
                             let mut env = env0.clone();
                             env.int = int;
-                            scenarios.push(Scenario { data: data.clone(), env, alphabet: alphabet.clone(), positions: true, iterate_failed_sets: false, policy_clauses: false, explore_post: false });
+                            scenarios.push(Scenario { data: data.clone(), env, alphabet: alphabet.clone(), positions: true, iterate_failed_sets: false, policy_clauses: false, explore_post: false, strict_after_buffer_limit: false });
                         }
                     }
                 }
@@ -625,7 +625,7 @@ fn c09_builtin(tier: Tier) -> Totals {
 pub fn c09(tier: Tier) -> i32 {
     let mut scenarios: Vec<Scenario> = vec![];
     let mk = |alphabet: Vec<Op>, env: &Env, data: &[u8], rs: &RefStream| {
-        let mut sc = Scenario { data: data.to_vec(), env: env.clone(), alphabet, positions: false, iterate_failed_sets: false, policy_clauses: true, explore_post: false };
+        let mut sc = Scenario { data: data.to_vec(), env: env.clone(), alphabet, positions: false, iterate_failed_sets: false, policy_clauses: true, explore_post: true, strict_after_buffer_limit: true };
         let nrec = rs.recs.len();
         sc.alphabet.retain(|op| match op {
             Op::K(i) => (*i as usize) < nrec,
